@@ -42,7 +42,8 @@ def _starts(cases):
 def _report(chk, s, behs, cases, layer, prefix):
     start = _starts(cases)
     seen = set()
-    for v in sorted(s["viol"], key=lambda v: v["line"]):
+    # shortest histories first: they come from the all-paths / tour sets and do not depend on the seed
+    for v in sorted(s["viol"], key=lambda v: (v["line"] - start[v["case"]], v["line"])):
         if v["case"] in seen:
             continue
         seen.add(v["case"])
